@@ -27,7 +27,10 @@ MemEv ==
     /\ (E.what = "noalloc" => E.allocs = 0)
     \* relational: no growth with the number of keys
     /\ IF E.scenario \in DOMAIN seen
-       THEN /\ (E.n >= seen[E.scenario].n => E.peak <= seen[E.scenario].peak + GrowthSlack(E.what))
+       \* (for builders only with a cache that is certainly full at the smaller run: a large
+       \* cache is still filling up, which the absolute bound already accounts for)
+       THEN /\ (E.n >= seen[E.scenario].n /\ (E.what = "build" => E.cells <= 1024)
+                 => E.peak <= seen[E.scenario].peak + GrowthSlack(E.what))
             /\ UNCHANGED seen
        ELSE seen' = [x \in (DOMAIN seen) \cup {E.scenario} |-> IF x = E.scenario THEN [n |-> E.n, peak |-> E.peak] ELSE seen[x]]
     /\ l' = l + 1
